@@ -337,7 +337,9 @@ fn is_frame_assignment_free(s: &Stmt) -> bool {
 
 fn gen_noise(rng: &mut Rng, k: usize, n: usize) -> Vec<Item> {
     let mut items = vec![];
-    let prefix = format!("zz{}_", k);
+    // same length as the program's names (p0, p1, ..): statements of noise and program then
+    // often have identical source offsets, which matters to anything keyed by span
+    let prefix = (*["u", "v", "w", "y"].get(k % 4).unwrap()).to_string();
     let mut r2 = rng.fork();
     let mut g = PGen::new(&mut r2, &prefix);
     g.allow_depth_probe = false;
